@@ -516,7 +516,10 @@ impl ExpLine {
             _ => return false,
         }
         if !self.cmd.eq_ignore_ascii_case(&m.cmd) {
-            return false;
+            // the server writes some ERROR lines as "ERROR: text"
+            if !(self.cmd == "ERROR" && m.cmd == "ERROR:") {
+                return false;
+            }
         }
         let obs: &[String] = if self.prefix.is_none() && is_numeric(&m.cmd) {
             if m.params.is_empty() {
